@@ -1,0 +1,28 @@
+//go:build verif
+
+package sniproxy
+
+import (
+	"net"
+
+	"github.com/gorilla/websocket"
+)
+
+// This file is only built with the "verif" tag. It lets an external
+// verification harness run the REAL endpoint side (endpointServer.serve, its
+// read loop included) on a websocket the harness supplies, so that calls of
+// the real client side travel as real websocket frames to the real server
+// side; it adds no behaviour to the package.
+
+// VerifServeEndpoint runs an endpointServer on conn the way Endpoint does
+// (non-siding); accept receives every tunnelled connection. The returned
+// channel yields what serve() returned.
+func VerifServeEndpoint(
+	conn *websocket.Conn, accept func(net.Conn) error,
+) <-chan error {
+	s := newEndpointServer(conn, nil, &Options{})
+	s.setAccept(accept)
+	done := make(chan error, 1)
+	go func() { done <- s.serve() }()
+	return done
+}
